@@ -46,6 +46,23 @@ func IsS3(URL *models.URL) bool {
 		strings.Contains(URL.GetResponse().Header.Get("Content-Type"), "xml")
 }
 
+// IsS3Listing reports whether the body is a bucket listing: S3-compatible servers
+// also serve ordinary XML documents (sitemaps, feeds), which are not for the S3 extractor.
+func IsS3Listing(URL *models.URL) bool {
+	defer URL.RewindBody()
+
+	decoder := xml.NewDecoder(URL.GetBody())
+	for {
+		tok, err := decoder.Token()
+		if err != nil {
+			return false
+		}
+		if start, ok := tok.(xml.StartElement); ok {
+			return start.Name.Local == "ListBucketResult"
+		}
+	}
+}
+
 // S3 decides which helper to call based on the query param: old style (no list-type=2) vs. new style (list-type=2)
 func S3(URL *models.URL) ([]*models.URL, error) {
 	defer URL.RewindBody()
